@@ -5,6 +5,7 @@ import (
 	"encoding/json"
 	"fmt"
 	"hash/fnv"
+	"io"
 	"os"
 	"sort"
 	"strings"
@@ -92,6 +93,7 @@ type World struct {
 	Files  []string // library APIs
 	Opts   Options
 	Stdin  string
+	StdinR io.Reader // when set, used instead of Stdin (faulty readers)
 	Tools  kern.ToolModel
 	Faults []kern.Fault
 	Note   string // free-text description of how the world was generated
@@ -200,7 +202,11 @@ func lintOnce(w *World, res *LintResult, shared *sharedLinter) {
 	res.Errs, res.Fatal = nil, ""
 	switch w.API {
 	case APIMain:
-		cmd := actionlint.Command{Stdin: strings.NewReader(w.Stdin), Stdout: &out, Stderr: &errb}
+		var in io.Reader = strings.NewReader(w.Stdin)
+		if w.StdinR != nil {
+			in = w.StdinR
+		}
+		cmd := actionlint.Command{Stdin: in, Stdout: &out, Stderr: &errb}
 		res.Exit = cmd.Main(append([]string{"actionlint"}, w.Args...))
 	default:
 		opts := &actionlint.LinterOptions{
